@@ -98,6 +98,17 @@ def genOps2 : List (String × R String) := [
   ("g:b58_addr", do
       let (ty, pfx) ← tyPfx; let h ← bytes
       pure (ansG hexStr (Gen.address_to_string Crypto.sha256 Spec.B58.encode ty pfx pfx h))),
+  ("g:pub_addr", do
+      -- PublicKey.get_address(compressed).to_string(): the stored hex string, then bytes.fromhex of it inside to_string
+      let (ty, pfx) ← tyPfx; let x ← bytes; let y ← bytes; let c ← bool
+      pure (ansG hexStr (do
+        let stored ← Gen.pubkey_get_address Crypto.sha256 (x ++ y) c
+        let h ← Py.bytesFromhex stored
+        Gen.address_to_string Crypto.sha256 Spec.B58.encode ty pfx pfx h))),
+  ("g:h160_init", do
+      -- Address.__init__(hash160=s): what the object stores
+      let _ ← tyPfx; let s ← str
+      pure (ansG (fun (cs : List Char) => hexStr (String.ofList cs)) (Gen.address_init_hash160 s.toList))),
   ("g:b58_accept", do
       -- Address.__init__(address=s): validate, then decode
       let (ty, pfx) ← tyPfx; let s ← str
